@@ -400,6 +400,32 @@ pub fn generate(f: Family, rng: &mut Rng, size: usize) -> Prog {
     }
 }
 
+/// Insert operations on a fresh shared atomic at random positions of the child tasks: a visible
+/// operation before/after each primitive operation makes a missing choice point between the two
+/// observable (the "third operation" of DESIGN §4 C02).
+pub fn sprinkle(mut p: Prog, rng: &mut Rng) -> Prog {
+    p.objs.push(Obj::Atomic(0));
+    let a = p.objs.len() - 1;
+    let nt = p.tasks.len();
+    let mut added = 0;
+    for t in 1..nt {
+        if added >= 3 {
+            break;
+        }
+        if rng.chance(2, 3) {
+            let pos = rng.below(p.tasks[t].len() + 1);
+            let op = match rng.below(3) {
+                0 => Op::Store(a, 1 + t as i64),
+                1 => Op::FetchAdd(a, 1),
+                _ => Op::Load(a),
+            };
+            p.tasks[t].insert(pos, op);
+            added += 1;
+        }
+    }
+    p
+}
+
 /// Hand-written hostile shapes that are always run.
 pub fn corpus() -> Vec<(&'static str, Prog)> {
     let mut v = vec![];
@@ -503,6 +529,32 @@ pub fn corpus() -> Vec<(&'static str, Prog)> {
         b.tasks[2] = vec![Op::Send(ch, 3)];
         b.tasks[3] = vec![Op::Recv(ch), Op::Recv(ch), Op::Recv(ch)];
         v.push(("bounded-two-blocked-senders", b.finish(true)));
+    }
+    // an observable operation right before a notification: the waiter may see it and still register in time
+    for all in [false, true] {
+        let mut b = B::new(3);
+        let m = b.obj(Obj::Mutex);
+        let cv = b.obj(Obj::Condvar);
+        let a = b.obj(Obj::Atomic(0));
+        b.tasks[1] = vec![Op::Lock(m), Op::Load(a), Op::Wait { cv, m }, Op::Unlock(m)];
+        b.tasks[2] = vec![Op::Store(a, 1), if all { Op::NotifyAll(cv) } else { Op::NotifyOne(cv) }];
+        v.push((if all { "store-then-notify-all" } else { "store-then-notify-one" }, b.finish(true)));
+    }
+    // the same for unpark and for a semaphore release
+    {
+        let mut b = B::new(3);
+        let a = b.obj(Obj::Atomic(0));
+        b.tasks[1] = vec![Op::Load(a), Op::Park];
+        b.tasks[2] = vec![Op::Store(a, 1), Op::Unpark(1)];
+        v.push(("store-then-unpark", b.finish(true)));
+    }
+    {
+        let mut b = B::new(3);
+        let s = b.obj(Obj::Sem { permits: 0, fair: true });
+        let a = b.obj(Obj::Atomic(0));
+        b.tasks[1] = vec![Op::Load(a), Op::TryAcquire(s, 1)];
+        b.tasks[2] = vec![Op::Store(a, 1), Op::Release(s, 1)];
+        v.push(("store-then-release", b.finish(true)));
     }
     // racing call_once with observers
     {
